@@ -128,6 +128,9 @@ func HarnessC06Resolved() {
 	verif.Assume(err == nil)
 	relS := verifTemplate(verif.SParam("rel", "./{3}"))
 	verif.Assume(verifValidUTF8(relS))
+	// the general parsers refuse surrounding white space; the relative address is held to the same
+	_, perr := ParseSource(relS)
+	verif.Assume(perr == nil)
 	rel, err := ParseLocalSource(relS)
 	verif.Assume(err == nil)
 	r, err := ResolveRelativeSource(base, rel)
